@@ -171,7 +171,7 @@ def _plain(spec):
     return {k: (list(v) if isinstance(v, tuple) else v) for k, v in spec.items() if k != "vclasses"}
 
 
-def replay(rec, verbose=False):
+def replay_single(rec, verbose=False):
     spec = dict(rec["space"])
     vname, members, tname = rec["case"]
     spec["vclasses"] = list(VCLS[vname][:spec["nv"]])
@@ -190,6 +190,27 @@ def replay(rec, verbose=False):
                     print("     ", line)
         print("  verdict:", bad)
     return bad is not None
+
+
+def replay(rec, verbose=False):
+    """
+    Re-executes the WHOLE evaluation of the recorded graph state (every membership list / option
+    combination, in the order the explorer used) on freshly built objects and reports whether the
+    recorded case fails in it: a renderer that keeps state between calls (a module-level memo, a
+    flag left over from the previous call) only misbehaves in a sequence of calls.
+    """
+    from ..structure import new_item
+    new_item()
+    spec = dict(rec["space"])
+    seq = [tuple(o) for o in rec["seq"]]
+    w, ok = engine_g.build(spec, seq)
+    ev, nt, viols, _ = per_state(spec, seq, w)
+    hit = [fp for fp, r in viols if r["case"] == rec["case"]]
+    if verbose:
+        print("  whole-state replay: failing cases in this state:", len(viols), " recorded case fails:", bool(hit))
+        new_item()
+        replay_single(rec, verbose=True)
+    return bool(hit)
 
 
 def run(tier, seed, log):
